@@ -53,7 +53,7 @@ def walChars (arrP : Nat → Option (List Char)) : Sx → Option (List Char)
     match walCharsList arrP xs with
     | Option.none => Option.none
     | some parts => assembleList xs parts
-  | .sym n _ => some n.toList
+  | .sym n _ => some (match n.toList with | '\\' :: r => '\\' :: r ++ [' '] | cs => cs)   -- an escaped identifier extends to the next blank
   | .mac n ps b =>
     match walChars arrP ps, walChars arrP b with
     | some tp, some tb => some ("Macro: ".toList ++ n.toList ++ "\nArgs: ".toList ++ tp ++ '\n' :: tb)
